@@ -13,7 +13,7 @@ TypeTable == <<
   <<"u8", "TinyUnsigned">>, <<"u16", "SmallUnsigned">>, <<"u32", "Unsigned">>, <<"u64", "BigUnsigned">>,
   <<"f32", "Float">>, <<"f64", "Double">>, <<"char", "Char">>, <<"String", "String">>, <<"Vec<u8>", "Bytes">>,
   <<"Json", "Json">>, <<"NaiveDate", "ChronoDate">>, <<"NaiveTime", "ChronoTime">>, <<"NaiveDateTime", "ChronoDateTime">>,
-  <<"DateTime<Utc>", "ChronoDateTimeUtc">>, <<"DateTime<FixedOffset>", "ChronoDateTimeWithTimeZone">>,
+  <<"DateTime<Utc>", "ChronoDateTimeUtc">>, <<"DateTime<Local>", "ChronoDateTimeLocal">>, <<"DateTime<FixedOffset>", "ChronoDateTimeWithTimeZone">>,
   <<"time::Date", "TimeDate">>, <<"time::Time", "TimeTime">>, <<"PrimitiveDateTime", "TimeDateTime">>,
   <<"OffsetDateTime", "TimeDateTimeWithTimeZone">>, <<"Decimal", "Decimal">>, <<"BigDecimal", "BigDecimal">>,
   <<"Uuid", "Uuid">>, <<"IpNetwork", "IpNetwork">>, <<"MacAddress", "MacAddress">>, <<"Vector", "Vector">>,
